@@ -83,10 +83,19 @@ class SplineTransmissivity:
         """Compute transmissivity for a scalar argument"""
         if water_level_mm <= self.zeta_knots_mm.min():
             return self.minimum_transmissivity_m2_d
+        # Conductivity has a kink at every knot: tell the integrator
+        # where they are, or it can miss narrow segments entirely.
+        interior_knots = self.zeta_knots_mm[
+            (self.zeta_knots_mm > self.zeta_knots_mm.min())
+            & (self.zeta_knots_mm < water_level_mm)
+        ]
         return (
             self.minimum_transmissivity_m2_d
             + integrate_mod.quad(
-                self.conductivity, self.zeta_knots_mm.min(), water_level_mm
+                self.conductivity,
+                self.zeta_knots_mm.min(),
+                water_level_mm,
+                points=interior_knots if len(interior_knots) else None,
             )[0]
         )
 
